@@ -25,7 +25,7 @@ RUNS = {"quick": 400, "thorough": 12000}
 RUN_WALL_CAP = 300.0
 REQUIRED_PROBES = {"quick": ["lower_bound_obtained", "two_lower_bounds_different_entropy", "npa_obtained", "complex_predicate", "asymmetric_game", "needs_question_dependent_answers", "referee_dim_1", "method_repeated", "unequal_counts", "three_questions", "two_objects_same_shape"], "thorough": ["lower_bound_obtained", "two_lower_bounds_different_entropy", "npa_obtained", "npa2_obtained", "complex_predicate", "asymmetric_game", "needs_question_dependent_answers", "referee_dim_1", "referee_dim_3", "method_repeated", "unequal_counts"]}
 COMPONENTS = {"real": ["toqito.nonlocal_games.ExtendedNonlocalGame (unentangled_value, quantum_value_lower_bound, commuting_measurement_value_upper_bound, nonsignaling_value)", "toqito.helper.npa_constraints (referee_dim blocks)", "toqito.rand.random_unitary", "cvxpy + SCS/Clarabel"], "stub": ["OS entropy for the see-saw start (numpy.random.bit_generator.randbits -> choice source)"]}
-RULE = ("one run = one extended game (referee dimension 1..3, 1..2 (thorough 3) answers and questions per player, unequal counts, PSD predicate operators of norm <= 1, real and complex, "
+RULE = ("one run = one extended game, sometimes with a second game of the same shape used in between (referee dimension 1..3, 1..2 (rarely 3) answers and 1..3 questions per player, unequal counts, PSD predicate operators of norm <= 1, real and complex, "
         "not symmetric under player exchange, two thirds with referee dimension = Bob's answer count so that the see-saw runs) and 3..6 value-method calls in seeded order, several entropy values per game; "
         "non-trivial = a lower bound was returned, >=2 entropy values were used, and the game is not won with certainty by constant answers; distinct = distinct digest of (game, operations, entropy)")
 SHRINK_ORDER = ["config", "game", "ops"]
